@@ -214,6 +214,7 @@ class Interp:
     # ------------------------------------------------------------------ entry
     def run_fn(self, fn, args=None):
         env = Env()
+        self.self_ty = strip_generics(fn.self_ty) if getattr(fn, "self_ty", None) else None  # `Self::f(..)` inside `impl T` is `T::f(..)`
         self.params = []
         i = 0
         for p in fn.params:
@@ -554,6 +555,9 @@ class Interp:
             return ("app", "call", (fv,) + args)
         p = strip_generics(f["p"])
         segs = p.split("::")
+        if len(segs) >= 2 and segs[0] == "Self" and getattr(self, "self_ty", None) and "::" not in self.self_ty and "<" not in self.self_ty:
+            segs[0] = self.self_ty
+            p = "::".join(segs)
         if len(segs) == 1:
             fv = env.get(segs[0])
             if fv is not None:
@@ -690,6 +694,8 @@ class Interp:
             return None
         fn = cands[0]
         self.depth += 1
+        saved_self_ty = getattr(self, "self_ty", None)
+        self.self_ty = strip_generics(fn.self_ty) if fn.self_ty else saved_self_ty
         try:
             env = Env()
             i = 0
@@ -707,6 +713,7 @@ class Interp:
             return v
         finally:
             self.depth -= 1
+            self.self_ty = saved_self_ty
 
 
 def pat_keys(pat):
